@@ -238,6 +238,9 @@ func (c *Ctx) Finish() int {
 		kf = append(kf, k)
 	}
 	sort.Strings(kf)
+	if kf == nil {
+		kf = []string{}
+	}
 	cov["known_findings_hit"] = kf
 	wall := time.Since(c.Start).Seconds()
 	if c.Assumptions == nil {
@@ -254,7 +257,12 @@ func (c *Ctx) Finish() int {
 		"violations":  c.Violations,
 	}
 	js, _ := json.MarshalIndent(ev, "", " ")
-	path := filepath.Join(Root, "evidence", c.Prop+".json")
+	evdir := filepath.Join(Root, "evidence")
+	if d := os.Getenv("VERIF_EVIDENCE_DIR"); d != "" { // mutation runs keep the committed evidence untouched
+		evdir = d
+		os.MkdirAll(evdir, 0o755)
+	}
+	path := filepath.Join(evdir, c.Prop+".json")
 	if err := os.WriteFile(path, js, 0o644); err != nil {
 		fmt.Printf("ENGINE-ERROR property=%s cannot write evidence: %v\n", c.Prop, err)
 		return 2
